@@ -286,13 +286,16 @@ class History(c01.History):
                 if " " in sname:
                     allowed = {dl.FALSE, dl.ANNERR}
                 newm, tent = self.m, 1
-            elif allowed == {dl.TRUE}:
+            elif dl.TRUE in allowed:
+                # (also when the reference leaves True-or-AnnotationError open -- an unbound symbolic axis on a '#' axis of size 1 --: IF the
+                # check answers True, the inner name is bound like after any accepted check)
+                could_annerr = {dl.ANNERR} & set(allowed)
                 if new_inner:
                     structs2[new_inner] = str(jtu.tree_structure(real))
                 if sname and " " not in sname:  # (a tree without any leaf: the inner check never reaches a leaf, no ambiguity arises)
                     if sname in newm.structs:
                         if newm.structs[sname] != ("leaf",):
-                            allowed, newm = {dl.FALSE}, self.m
+                            allowed, newm = {dl.FALSE} | could_annerr, self.m
                     else:
                         newm = newm.copy()
                         newm.structs[sname] = ("leaf",)
